@@ -88,6 +88,8 @@ pub fn sweep_pool(reduced: bool) -> Vec<V> {
         V::UInt(0), V::UInt(1), V::UInt(64), V::UInt(u64::MAX), V::UInt(1 << 63),
         V::F(0.0), V::F(-0.0), V::F(1.5), V::F(-2.5), V::F(f64::NAN), V::F(f64::INFINITY), V::F(f64::NEG_INFINITY), V::F(f64::MAX), V::F(1e19),
         V::s(""), V::s("a"), V::s("abc"), V::s("héllo"), V::s("("), V::s("1"), V::s("UTC"), V::s("1h"), V::s("kg"),
+        // time zones east and west of UTC (boundary instants shifted by the offset leave the range), fixed offsets, unknown
+        V::s("Asia/Tokyo"), V::s("America/Los_Angeles"), V::s("Pacific/Kiritimati"), V::s("Etc/GMT+12"), V::s("+05:30"), V::s("Nowhere/Land"),
         V::Bytes(vec![]), V::Bytes(vec![0xff, 0xfe]),
         V::List(vec![]), V::List(vec![V::Int(1), V::Int(2)]), V::List(vec![V::s("b"), V::s("a")]), V::List(vec![V::List(vec![V::Int(1)])]),
         // lists longer than 20 elements switch std's sort to the algorithm that checks the comparator
@@ -110,7 +112,7 @@ pub fn sweep_pool(reduced: bool) -> Vec<V> {
         V::Int(0), V::Int(-1), V::Int(64), V::Int(i64::MAX), V::Int(i64::MIN),
         V::UInt(0), V::UInt(64), V::UInt(u64::MAX),
         V::F(1.5), V::F(f64::NAN), V::F(f64::MAX),
-        V::s("abc"), V::s("héllo"), V::List(vec![V::Int(1), V::Int(2)]), V::Null,
+        V::s("abc"), V::s("héllo"), V::s("Asia/Tokyo"), V::s("America/Los_Angeles"), V::List(vec![V::Int(1), V::Int(2)]), V::Null,
         V::Ts(TS_MAX_S, 999_999_999), V::Ts(TS_MIN_S, 0), V::Dur(DUR_MAX_MS * 1_000_000), V::Dur(-DUR_MAX_MS * 1_000_000),
     ]
 }
